@@ -7,6 +7,10 @@ Open Scope Z_scope.
 Lemma zcmp_swap o a b : zcmp (swap o) b a = zcmp o a b.
 Proof. destruct o; cbn; auto; rewrite Z.eqb_sym; reflexivity. Qed.
 
+(* the regenerated pointer branch compares the two addresses as unsigned numbers, operator by operator *)
+Lemma ptr_cmp_zcmp op a b : ptr_cmp ptr_branch op a b = zcmp op a b.
+Proof. destruct op; reflexivity. Qed.
+
 Lemma swap_invol o : swap (swap o) = o.
 Proof. destruct o; reflexivity. Qed.
 
@@ -38,7 +42,7 @@ Lemma ptr_compare ia ib ta tb a b op :
   richcompare (Build_obj ia (VPtr ta a)) (Build_obj ib (VPtr tb b)) op = RBool (zcmp op a b).
 Proof.
   unfold Model.richcompare, reflected_first; cbn.
-  destruct (proper_subtype tb ta); cbn; rewrite ?zcmp_swap; reflexivity.
+  destruct (proper_subtype tb ta); cbn; rewrite !ptr_cmp_zcmp, ?zcmp_swap; reflexivity.
 Qed.
 
 Lemma ptr_hash ia t a : hash (Build_obj ia (VPtr t a)) = HOk (hash_pointer a).
